@@ -80,7 +80,33 @@ def gen_T02():
             and all(isinstance(e, ast.Constant) and isinstance(e.value, str) for e in n.elts)]
     need(len(tups) == 2 and 'true' in tups[0] and 'false' in tups[1], 'toBool literals')
     need('s.strip().lower()' in ast.unparse(tb), 'toBool normalisation')
-    out = 'Definition SPECS : list (list N * list N) := %s.\n' % clist(
+    # User._checkName (name validation shared by register and changename)
+    ut = tree('plugins/User/plugin.py')
+    ucls = find_class(ut, 'User')
+    chk = [n for n in ucls.body if isinstance(n, ast.FunctionDef) and n.name == '_checkName']
+    need(len(chk) == 1, 'User._checkName (validation of user names) is missing')
+    csrc = ast.unparse(chk[0])
+    need('ircutils.isUserHostmask(name)' in csrc and 'name != name.strip()' in csrc, 'User._checkName: hostmask / strip tests changed')
+    forbidden = []
+    for n in ast.walk(chk[0]):
+        if isinstance(n, ast.Compare) and len(n.ops) == 1 and isinstance(n.ops[0], ast.In) \
+                and isinstance(n.left, ast.Constant) and isinstance(n.left.value, str) \
+                and isinstance(n.comparators[0], ast.Name) and n.comparators[0].id == 'name':
+            need(len(n.left.value) == 1, '_checkName: forbidden substring is not one character')
+            forbidden.append(n.left.value)
+    need(forbidden, '_checkName: no forbidden characters')
+    need(csrc.count('Raise=True') == 2 and csrc.count('irc.errorInvalid') == 2, '_checkName: refusals must raise')
+    for cmd, arg in (('register', 'name'), ('changename', 'newname')):
+        body = ast.unparse(find_def(ut, cmd, 'User'))
+        need('self._checkName(irc, %s)' % arg in body, 'User.%s no longer validates the name' % cmd)
+    # Admin.capability.add: single-token test
+    acls = find_class(tree('plugins/Admin/plugin.py'), 'Admin')
+    cap = [n for n in acls.body if isinstance(n, ast.ClassDef) and n.name == 'capability'][0]
+    addsrc = ast.unparse([n for n in cap.body if isinstance(n, ast.FunctionDef) and n.name == 'add'][0])
+    need('capability.split() != [capability]' in addsrc, 'Admin.capability.add: the single-token test is missing')
+    need(addsrc.index('capability.split() != [capability]') < addsrc.index('user.addCapability'), 'Admin.capability.add: token test after the add')
+    out = 'Definition NAME_FORBIDDEN : list N := %s.\n' % clist(str(ord(c)) for c in forbidden)
+    out += 'Definition SPECS : list (list N * list N) := %s.\n' % clist(
         '(%s, %s)' % (cstr(k), cstr(v)) for k, v in specs)
     for k, v in specs:
         out += '(* %s : %s *)\n' % (k, v)
